@@ -46,6 +46,26 @@ func NewSrcErr(src string, also error) *SrcErr { return &SrcErr{Msg: "<c14:" + s
 
 func (e *SrcErr) Src() string { return strings.TrimSuffix(strings.TrimPrefix(e.Msg, "<c14:"), ">") }
 
+// NilErr: a body that returns a typed-nil error pointer (`var e *NilErr; return e`) returns a NON-nil error
+// interface: the transaction must be rolled back and the caller gets that value. Its methods work on the nil
+// receiver.
+type NilErr struct{}
+
+func (e *NilErr) Error() string { return "<c14:body.plain>" }
+
+// values a body panics with that are neither error nor string (recognised again in the message by their text)
+const PanicInt = 14140042
+
+type C14PanicStruct struct{ C14PanicField int }
+
+type C14PanicPtr struct{ _ int }
+
+// CtxKey / CtxVal: the value the harness puts into the context it hands to TransactCtx; the body must find it in
+// the context it is given.
+type CtxKey struct{}
+
+const CtxVal = "c14-callers-context"
+
 // ErrUserOk is what the harness's WithAcceptable function accepts.
 var ErrUserOk = errors.New("c14 user-acceptable")
 
@@ -65,6 +85,8 @@ func SentinelOf(cls string) error {
 		return ErrUserOk
 	case "userok2":
 		return ErrUserOk2
+	case "badconn": // not acceptable for the breaker; an ordinary error inside a transaction (class plain of the model)
+		return driver.ErrBadConn
 	}
 	return nil
 }
@@ -130,6 +152,11 @@ func ClassifyB(err error, extra func(error) (string, error, bool), texts map[str
 			seen[se.Src()] = true
 			break
 		}
+		if _, ok := e.(*NilErr); ok {
+			is = append(is, "body.plain")
+			seen["body.plain"] = true
+			break
+		}
 		if name := rawName(e, bare); name != "" {
 			is = append(is, name)
 			seen[name] = true
@@ -162,6 +189,10 @@ func ClassifyB(err error, extra func(error) (string, error, bool), texts map[str
 			seen[m[1]] = true
 			says = append(says, m[1])
 		}
+	}
+	if (strings.Contains(msg, "C14Panic") || strings.Contains(msg, fmt.Sprint(PanicInt))) && !seen["panic"] {
+		seen["panic"] = true
+		says = append(says, "panic")
 	}
 	if strings.Contains(msg, "PanicNilError") && !seen["panic"] {
 		seen["panic"] = true
@@ -266,13 +297,39 @@ func (d *Drv) Connect(context.Context) (driver.Conn, error) { return &conn{p: d.
 
 func (d *Drv) Driver() driver.Driver { return d }
 
-type conn struct{ p *Plan }
+// conn: inTx = a transaction is open on this connection (between a Begin that worked and its Commit / Rollback);
+// a statement that reaches a connection without one did not run inside the transaction (logged O<i>).
+type conn struct {
+	p    *Plan
+	inTx bool
+}
 
 // Prepare (a prepared statement inside the transaction): preparing is not logged, executing it is logged and
-// faulted exactly like a direct statement.
+// faulted exactly like a direct statement. A statement text ending in " prepfail" makes the driver refuse the
+// Prepare itself: logged as the failed driver call of that statement.
 func (c *conn) Prepare(q string) (driver.Stmt, error) {
-	parseStmt(q)
+	i, _ := parseStmt(q)
+	if strings.HasSuffix(q, " prepfail") {
+		c.p.add(c.tag("E", i) + "!")
+		return nil, NewSrcErr(fmt.Sprintf("stmt%d", i), nil)
+	}
 	return &stmt{c: c, q: q}, nil
+}
+
+func (c *conn) tag(letter string, i int) string {
+	if !c.inTx {
+		letter = "O"
+	}
+	return fmt.Sprintf("%s%d", letter, i)
+}
+
+// stmtErr: the driver's fault on statement i; " badconn": the error wraps driver.ErrBadConn (inside a transaction
+// database/sql hands it to the caller like any other error)
+func stmtErr(q string, i int) error {
+	if strings.HasSuffix(q, " badconn") {
+		return &SrcErr{Msg: fmt.Sprintf("<c14:stmt%d>", i), Wrap: driver.ErrBadConn}
+	}
+	return NewSrcErr(fmt.Sprintf("stmt%d", i), nil)
 }
 
 type stmt struct {
@@ -309,10 +366,12 @@ func (c *conn) BeginTx(context.Context, driver.TxOptions) (driver.Tx, error) {
 		return nil, NewSrcErr("begin", nil)
 	}
 	c.p.add("B")
-	return &tx{p: c.p}, nil
+	c.inTx = true
+	return &tx{p: c.p, c: c}, nil
 }
 
-// statements carry their own fault decision: "c14 <index> <ok|fail|empty>" (empty: the query works and finds no row)
+// statements carry their own fault decision: "c14 <index> <ok|fail|empty|badconn|prepfail>" (empty: the query works
+// and finds no row; badconn: fails with an error wrapping driver.ErrBadConn; prepfail: the Prepare is refused)
 func parseStmt(q string) (int, bool) {
 	f := strings.Fields(q)
 	if len(f) != 3 || f[0] != "c14" {
@@ -328,29 +387,33 @@ func parseStmt(q string) (int, bool) {
 func (c *conn) ExecContext(_ context.Context, q string, _ []driver.NamedValue) (driver.Result, error) {
 	i, ok := parseStmt(q)
 	if !ok {
-		c.p.add(fmt.Sprintf("E%d!", i))
-		return nil, NewSrcErr(fmt.Sprintf("stmt%d", i), nil)
+		c.p.add(c.tag("E", i) + "!")
+		return nil, stmtErr(q, i)
 	}
-	c.p.add(fmt.Sprintf("E%d", i))
+	c.p.add(c.tag("E", i))
 	return driver.RowsAffected(1), nil
 }
 
 func (c *conn) QueryContext(_ context.Context, q string, _ []driver.NamedValue) (driver.Rows, error) {
 	i, ok := parseStmt(q)
 	if !ok {
-		c.p.add(fmt.Sprintf("Q%d!", i))
-		return nil, NewSrcErr(fmt.Sprintf("stmt%d", i), nil)
+		c.p.add(c.tag("Q", i) + "!")
+		return nil, stmtErr(q, i)
 	}
-	c.p.add(fmt.Sprintf("Q%d", i))
+	c.p.add(c.tag("Q", i))
 	if strings.HasSuffix(q, " empty") {
 		return &rows{n: 0}, nil
 	}
 	return &rows{n: 1}, nil
 }
 
-type tx struct{ p *Plan }
+type tx struct {
+	p *Plan
+	c *conn
+}
 
 func (t *tx) Commit() error {
+	t.c.inTx = false
 	if t.p.CommitPanics {
 		t.p.add("C!")
 		panic(NewSrcErr("commit", nil))
@@ -367,6 +430,7 @@ func (t *tx) Commit() error {
 }
 
 func (t *tx) Rollback() error {
+	t.c.inTx = false
 	if t.p.RbPanics {
 		t.p.add("R!")
 		panic(NewSrcErr("rollback", nil))
@@ -464,10 +528,14 @@ func genStmts(r *verifh.Rng, n int, faultAt int, faultLetter byte, checked bool)
 				b[i] = 'p'
 			case x < 91:
 				b[i] = 't'
-			case x < 94:
+			case x < 93:
 				b[i] = 'x'
-			case x < 96:
+			case x < 95:
+				b[i] = 'a'
+			case x < 97:
 				b[i] = 'o'
+			case x < 98:
+				b[i] = 'd'
 			default:
 				b[i] = 'M'
 			}
@@ -492,7 +560,11 @@ func genStmts(r *verifh.Rng, n int, faultAt int, faultLetter byte, checked bool)
 			b[i] = 'o'
 		case x < 95:
 			b[i] = 't'
-		case x < 98:
+		case x < 96:
+			b[i] = 'a'
+		case x < 97:
+			b[i] = 'd'
+		case x < 99:
 			b[i] = 'm'
 		default:
 			b[i] = 'M'
@@ -520,12 +592,14 @@ func endAns(r *verifh.Rng, classes []string) string {
 		return "ok"
 	case x < 76:
 		return "fail"
-	case x < 93:
+	case x < 90:
 		cls := classes[r.Intn(len(classes))]
 		if cls == "plain" {
 			return "fail"
 		}
 		return "fail:" + cls + ":" + r.PickS("i", "w", "b")
+	case x < 94: // driver.ErrBadConn from Commit / Rollback: an ordinary (not acceptable) error inside a transaction
+		return "fail:badconn:" + r.PickS("i", "w", "b")
 	default:
 		return "panic"
 	}
@@ -560,11 +634,14 @@ func GenOp(r *verifh.Rng, apis, classes []string, maxLen int, allowReject bool) 
 			n = 1
 		}
 		faultAt = r.Intn(n)
-		letter = "fgnNPrrwT"[r.Intn(9)]
+		letter = "fgnNPrrwTbBkA"[r.Intn(13)]
 	case x < 50: // the body returns its own error after all statements
 		end = "err:" + classes[r.Intn(len(classes))]
-	case x < 68: // the body panics after all statements
-		end = r.PickS("panic", "panic", "panicerr", "panicnil")
+		if r.Chance(1, 8) {
+			end = "err:tnil" // a typed-nil pointer in a non-nil error interface
+		}
+	case x < 68: // the body panics after all statements: with a string, an error, nil, an int, a struct, a typed nil pointer
+		end = r.PickS("panic", "panic", "panicerr", "panicnil", "panicint", "panicstruct", "panictnil")
 	case x < 72: // outside the quantifier (informational): exits that recover() != nil cannot see
 		end = r.PickS("goexit", "panicnil1")
 		oq = true
@@ -572,7 +649,7 @@ func GenOp(r *verifh.Rng, apis, classes []string, maxLen int, allowReject bool) 
 	}
 	// the statement fault ends the body early; what would follow is still generated (must not run)
 	if faultAt >= 0 && r.Bool() {
-		end = r.PickS("ok", "err:plain", "panic")
+		end = r.PickS("ok", "err:plain", "panic", "panicint")
 	}
 	if oq { // keep the informational exits apart from driver panics
 		if commit == "panic" {
@@ -642,11 +719,33 @@ func Exhaustive(api string, maxLen int) []string {
 					add(true, base, end, c, rb)
 				}
 				for k := 0; k < n; k++ {
-					for _, l := range []string{"f", "g", "n", "i", "N", "P"} {
+					for _, l := range []string{"f", "g", "n", "i", "N", "P", "b", "k"} {
 						add(true, base[:k]+l+base[k+1:], "ok", c, rb)
 					}
 				}
 			}
+		}
+		// every kind of value a body can panic with / a typed-nil error, rollback ok and failing
+		for _, end := range []string{"panicerr", "panicnil", "panicint", "panicstruct", "panictnil", "err:tnil"} {
+			add(true, rep("X", n), end, true, true)
+			add(true, rep("X", n), end, false, false)
+		}
+		// Commit / Rollback (and a statement) answered driver.ErrBadConn: ordinary errors inside a transaction —
+		// the transaction is still ended once, nothing is begun again, the body is not run again
+		for _, form := range []string{"i", "w", "b"} {
+			ans := "fail:badconn:" + form
+			for _, end := range []string{"ok", "err:plain", "panic"} {
+				addX(true, 0, rep("X", n), end, ans, ans, "-")
+			}
+			if n > 0 {
+				addX(true, 0, rep("X", n-1)+"b", "ok", "ok", ans, "-")
+				addX(true, 0, rep("x", n-1)+"B", "ok", ans, "ok", "-")
+			}
+		}
+		if n > 0 {
+			addX(true, 2, rep("X", n-1)+"b", "ok", "ok", "ok", "-")
+			addX(true, 0, rep("X", n-1)+"A", "ok", "ok", "ok", "-")
+			addX(true, 0, "d"+rep("a", n-1), "ok", "ok", "ok", "-")
 		}
 		// a panicking Commit / Rollback of the driver, under every outcome of the body
 		for _, end := range []string{"ok", "err:plain", "panic"} {
@@ -755,6 +854,14 @@ type Sess struct {
 	// *sql.Tx); nil where the raw Tx is out of reach (then Exec / Nest are used)
 	RawExec func(q string) error
 	RawNest func() error
+	// QueryPartial / QueryRowPartial: Session.QueryRowsPartial[Ctx] / QueryRowPartial[Ctx] (nil: Query / QueryRow)
+	QueryPartial    func(q string) error
+	QueryRowPartial func(q string) error
+	// RawDB: RawDB() of a connection made from the transaction's session: (a *sql.DB came back, the error)
+	RawDB func() (bool, error)
+	// CV: "1" the context the body was given carries the value the caller put into the context it passed to
+	// TransactCtx, "0" it does not, "-" the entry point hands the body no context
+	CV string
 	// End ends the context the body was given (deadline: with DeadlineExceeded, else Canceled);
 	// nil when the entry point has no context.
 	End func(deadline bool)
@@ -876,6 +983,9 @@ func RunOp(op []string, h Hooks) string {
 		}
 		cls, form := f[1], f[2]
 		name := key + "." + cls
+		if cls == "badconn" {
+			name = key // an error of the model's class plain that wraps / is / answers Is for driver.ErrBadConn
+		}
 		var e error
 		sen := SentinelOf(cls)
 		switch {
@@ -891,7 +1001,7 @@ func RunOp(op []string, h Hooks) string {
 				// the sentinel itself cannot be told apart from the same value in the body's error: keep the
 				// marked form where the body can produce that value
 				if (cls == "canceled" && strings.HasPrefix(m["cancel"], "c")) ||
-					(cls == "norows" && strings.ContainsAny(stmts, "ro")) {
+					(cls == "norows" && strings.ContainsAny(stmts, "roA")) {
 					form = "i"
 				}
 			}
@@ -926,7 +1036,11 @@ func RunOp(op []string, h Hooks) string {
 	var endErr error
 	if strings.HasPrefix(m["end"], "err:") {
 		cls := strings.TrimPrefix(m["end"], "err:")
-		if h.BodyErr != nil {
+		if cls == "tnil" {
+			var ne *NilErr
+			endErr = ne // a non-nil error interface around a nil pointer
+		}
+		if endErr == nil && h.BodyErr != nil {
 			endErr = h.BodyErr(cls)
 		}
 		if endErr == nil {
@@ -944,8 +1058,13 @@ func RunOp(op []string, h Hooks) string {
 	}
 	runs := 0
 	bodyOut := "notrun"
+	cv := "-"
 	body := func(s Sess) (err error) {
 		runs++
+		cv = s.CV
+		if cv == "" {
+			cv = "-"
+		}
 		bodyOut = "panic" // stays if the body does not return
 		for i := 0; i <= len(stmts); i++ {
 			if i == cancelAt {
@@ -984,6 +1103,33 @@ func RunOp(op []string, h Hooks) string {
 				} else {
 					e, prop = s.Nest(), true
 				}
+			case 'b': // the driver fails the exec with an error wrapping driver.ErrBadConn, the body returns it
+				e, prop = s.Exec(fmt.Sprintf("c14 %d badconn", i)), true
+			case 'B':
+				e, prop = s.Query(fmt.Sprintf("c14 %d badconn", i)), true
+			case 'k': // the driver refuses the Prepare of a statement prepared inside the transaction
+				e, prop = s.PExec(fmt.Sprintf("c14 %d prepfail", i)), true
+			case 'a':
+				if s.QueryPartial != nil {
+					e, prop = s.QueryPartial(fmt.Sprintf("c14 %d ok", i)), true
+				} else {
+					e, prop = s.Query(fmt.Sprintf("c14 %d ok", i)), true
+				}
+			case 'A':
+				if s.QueryRowPartial != nil {
+					e, prop = s.QueryRowPartial(fmt.Sprintf("c14 %d empty", i)), true
+				} else {
+					e, prop = s.QueryRow(fmt.Sprintf("c14 %d empty", i)), true
+				}
+			case 'd': // RawDB() of a connection made from the session: must be refused; the body carries on
+				if s.RawDB != nil {
+					if got, e2 := s.RawDB(); got || e2 == nil {
+						bodyOut = "err:rawdbleak"
+						return NewSrcErr("rawdbleak", nil)
+					}
+				} else {
+					s.Nest()
+				}
 			case 'p':
 				e, prop = s.PExec(fmt.Sprintf("c14 %d ok", i)), true
 			case 'P':
@@ -1009,7 +1155,7 @@ func RunOp(op []string, h Hooks) string {
 			default:
 				panic("c14 harness: bad statement letter")
 			}
-			if prop && e == nil && (stmts[i] == 'X' || stmts[i] == 'Y' || stmts[i] == 'p' || stmts[i] == 't') {
+			if prop && e == nil && (stmts[i] == 'X' || stmts[i] == 'Y' || stmts[i] == 'p' || stmts[i] == 't' || stmts[i] == 'a') {
 				continue // `if err != nil { return err }` on a statement that worked
 			}
 			if prop {
@@ -1031,6 +1177,13 @@ func RunOp(op []string, h Hooks) string {
 			panic(NewSrcErr("panic", nil))
 		case "panicnil":
 			panic(nil)
+		case "panicint": // values that are neither error nor string
+			panic(PanicInt)
+		case "panicstruct":
+			panic(C14PanicStruct{C14PanicField: 1})
+		case "panictnil": // a typed nil pointer: recover() returns a non-nil interface
+			var pp *C14PanicPtr
+			panic(pp)
 		case "panicnil1": // outside the property's quantifier: GODEBUG=panicnil=1 is set around the call
 			bodyOut = "nilpanic"
 			panic(nil)
@@ -1088,7 +1241,7 @@ func RunOp(op []string, h Hooks) string {
 		}
 	}
 	if escaped == nil && !returned {
-		return fmt.Sprintf("log=%s runs=%d body=%s ret=noreturn mark=- esc=0", h.Plan.Log(), runs, bodyOut)
+		return fmt.Sprintf("log=%s runs=%d body=%s ret=noreturn mark=- esc=0 cv=%s", h.Plan.Log(), runs, bodyOut, cv)
 	}
 	if escaped != nil {
 		// the call left by a panic: its value, classified like an error
@@ -1096,9 +1249,13 @@ func RunOp(op []string, h Hooks) string {
 		if !ok {
 			pe = errors.New(strings.ReplaceAll(fmt.Sprint(escaped), " ", "_"))
 		}
-		return fmt.Sprintf("log=%s runs=%d body=%s ret=%s mark=%s esc=1", h.Plan.Log(), runs, bodyOut,
-			ClassifyT(pe, h.Extra, h.Texts), mark)
+		if _, isRt := pe.(runtime.Error); isRt && strings.Contains(pe.Error(), "nil pointer dereference") {
+			// a call of a nil function value (the only nil dereference the path can make: a nil WithAcceptable function)
+			return fmt.Sprintf("log=%s runs=%d body=%s ret=nilcall mark=%s esc=1 cv=%s", h.Plan.Log(), runs, bodyOut, mark, cv)
+		}
+		return fmt.Sprintf("log=%s runs=%d body=%s ret=%s mark=%s esc=1 cv=%s", h.Plan.Log(), runs, bodyOut,
+			ClassifyT(pe, h.Extra, h.Texts), mark, cv)
 	}
-	return fmt.Sprintf("log=%s runs=%d body=%s ret=%s mark=%s esc=0%s", h.Plan.Log(), runs, bodyOut,
-		ClassifyB(ret, h.Extra, h.Texts, bare), mark, coreObs)
+	return fmt.Sprintf("log=%s runs=%d body=%s ret=%s mark=%s esc=0 cv=%s%s", h.Plan.Log(), runs, bodyOut,
+		ClassifyB(ret, h.Extra, h.Texts, bare), mark, cv, coreObs)
 }
